@@ -19,4 +19,6 @@ mod replay {
 verif_file!(c08_gf);
 verif_file!(c08_ba);
 verif_file!(c09_serde);
+verif_file!(c10_report);
+verif_file!(c08_derived);
 verif_file!(scratch);
